@@ -23,7 +23,9 @@ impl ToTokens for Number {
     fn to_tokens(&self, tokens: &mut TokenStream) {
         match self {
             Number::F64(n) => tokens.extend(quote!(#n as f64)),
-            Number::I64(n) => tokens.extend(quote!(#n as i64)),
+            // Widen integer bounds to i128: every integer type converts to i128 without
+            // wrapping (an unsigned value above i64::MAX used to compare as a negative i64).
+            Number::I64(n) => tokens.extend(quote!(#n as i128)),
         }
     }
 }
